@@ -95,8 +95,7 @@ class C01(Machine):
     probe_names = ("query_after_mutation", "both_raised",
                    "query_order_effect", "valid_mutator_raised",
                    "projection_twin_used", "discard_rebuild",
-                   "multi_object", "nondeterministic_query",
-                   "reinit_mutator")
+                   "multi_object", "reinit_mutator")
     real_vs_stub = {"real": ["every memoising class with its public "
                              "constructor, mutators and queries; "
                              "core/cache.py with the LRU knob set before "
